@@ -55,6 +55,8 @@ def render_op(cid, phase, n, op):
         return ['$ sleep 1.5']
     if k == 'hard':
         return ['$ exit 3']
+    if k == 'incl':
+        return ['including ' + op[1]]
     if k == 'valerr':
         return ['def string Z%d = @[UNDEFINED_SYMBOL]@' % n]
     if k == 'synerr':
@@ -169,8 +171,31 @@ def _dedupe(ops_by_phase):
         ops_by_phase[ph] = keep
 
 
+# ---- files included by several cases ("the contents of an included file spliced in at the place of the including
+# directive"): instruction lines that are valid in every phase, optionally followed by a header and lines of another
+# phase.  What one case puts behind its `including` line must not show up in another case that includes the same file.
+_SHARED_LINES = ['env VERIF_C17_B = "from-shared-file"', 'def string SH%d = shared-value', 'dir -rel-tmp shd%d',
+                 '$ echo shared >> shared%d.log', 'env unset VERIF_PRESET']
+
+
 @st.composite
-def _case(draw, cid, slow):
+def _shared_file(draw, k):
+    def lines():
+        ls = draw(st.lists(st.sampled_from(_SHARED_LINES), min_size=0, max_size=2, unique=True))
+        return [(l % k) if '%d' in l else l for l in ls]
+    first = lines()
+    out = list(first)
+    used = set(first)
+    for _ in range(draw(w([(0, 2), (1, 5), (2, 2)]))):
+        out.append('[%s]' % draw(st.sampled_from(IPHASES)))
+        more = [l for l in lines() if l not in used or not (l.startswith('def') or l.startswith('dir'))]
+        used.update(more)
+        out.extend(more)
+    return '\n'.join(out) + '\n'
+
+
+@st.composite
+def _case(draw, cid, slow, shared=()):
     role = draw(w([('mutator', 4), ('observer', 3), ('both', 3)]))
     conf = {'status': draw(w([(None, 12), ('FAIL', 2), ('SKIP', 1), ('PASS', 1)])),
             'actor': draw(w([(None, 12), ('null', 1), ('source', 2)])),
@@ -194,6 +219,9 @@ def _case(draw, cid, slow):
         pos = draw(st.integers(0, len(ops[ph])))
         ops[ph].insert(pos, [ending])
     _dedupe(ops)
+    if shared and chance(draw, 2, 3):
+        ph = draw(st.sampled_from(IPHASES))
+        ops[ph].insert(draw(st.integers(0, len(ops[ph]))), ['incl', draw(st.sampled_from(sorted(shared)))])
     # half of the symbol observers look at a symbol the case defined itself earlier (if any)
     own = []
     for ph in IPHASES:
@@ -231,11 +259,16 @@ def histories(draw, tier='quick'):
         n = draw(w([(2, 8), (3, 10), (4, 2), (5, 2)]))
     else:
         n = draw(w([(2, 4), (3, 5), (4, 2), (5, 1)]))
-    cases = [draw(_case('c%d' % i, slow)) for i in range(n)]
+    shared = {}
+    if not slow and chance(draw, 1, 3):
+        for k in range(draw(w([(1, 3), (2, 1)]))):
+            shared['shared%d.xly' % k] = draw(_shared_file(k))
+    cases = [draw(_case('c%d' % i, slow, tuple(sorted(shared)))) for i in range(n)]
     orders = _orders(draw, n, 6 if tier == 'quick' else 12)
     if slow:
         orders = orders[:2]
-    return {'cases': cases, 'orders': orders, 'split': draw(st.integers(1, n - 1)) if chance(draw, 1, 4) else 0}
+    return {'cases': cases, 'orders': orders, 'split': draw(st.integers(1, n - 1)) if chance(draw, 1, 4) else 0,
+            'shared': shared}
 
 
 # ---- the slow ones, enumerated: a timeout set by one case must not end the processes of the next -------------------
